@@ -110,6 +110,9 @@ void gen_async_cfg(Rng &g, run::Plan &p, bool ha) {
 	p.cfg["conf_req"] = (!ha && p.c("pdu_ver") == 2 && g.chance(1, 4)) ? 1 : 0;
 	if (ha) p.cfg["eps"] = (int64_t)g.range(1, 3);
 	if (prop == "C06") { p.cfg["adv"] = 1; }
+	// the asynchronous clauses of the signing / extending properties: adversarial replies against the signing / extending service
+	if (prop == "C07") { p.cfg["adv"] = 1; p.cfg["svc"] = 0; }
+	if (prop == "C08") { p.cfg["adv"] = 1; p.cfg["svc"] = 1; }
 	if (prop == "C14") {
 		// only chunking-type disturbances in a third of the plans (would-block fails nothing), the rest adds connection loss
 		int64_t chunk = (1 << 5) | (1 << 6) | (1 << 7);
